@@ -34,7 +34,12 @@ def owner(clause):
 
 # C11 ("event fields map faithfully to the attested message") also reports the clause that says a forwarded message does not
 # carry the fields of the event it was made from; every other clause stays with C08 / C09.
-EXTRA_OWNERS = {"reobs-forwarded-altered": {"C11"}}
+# The same holds for the polling path and for the confirmed-event handler called directly (a message published with another
+# block's timestamp, or with a consistency level other than the event's): "is decoded into a message with exactly those values,
+# the block timestamp, and the Alephium chain id".  C04 reports the three clauses as well: a publication that is not a function of
+# the on-chain event alone (it depends on the path the event took, or on the guardian's configuration) makes honest guardians
+# sign different digests for one message ("every honest guardian observing the same message signs the same 32 bytes").
+EXTRA_OWNERS = {"reobs-forwarded-altered": {"C11", "C04"}, "poll-forwarded-altered": {"C11", "C04"}, "forwarded-altered": {"C11", "C04"}}
 
 
 def owned_by(clause, pid):
@@ -164,3 +169,66 @@ def run_alphwatch(ctx, part):
     if not ctx.broken and not ctx.spec_violations:
         shutil.rmtree(ctx.work, ignore_errors=True)     # keep the scratch directory only when something has to be looked at
     return kinds
+
+
+C04_CLAUSES = {c for c, who in EXTRA_OWNERS.items() if "C04" in who}
+
+
+def run_paths_for_c04(ctx):
+    """The Alephium part of C04 ("every honest guardian observing the same message signs the same 32 bytes ... does not depend on
+    which guardian computes it"): what the Alephium watcher hands to the processor for ONE on-chain event must be the same message
+    whichever way the event reached it (polling path, re-observation request, the confirmed-event handler directly) and however the
+    guardian is configured (struct literal; the production constructor on configs/alephium/{mainnet,testnet,devnet}.json) - each
+    publication is compared field by field with the event by drv_alphwatch.  C04 owns only the clauses in C04_CLAUSES
+    (`...-forwarded-altered`); everything else the harness part shows belongs to C08 / C09 / C11 and is reported there."""
+    # a scratch directory of its own (overlay, case file, verdicts, driver copy), whatever else runs in C04's: removed when nothing
+    # has to be looked at
+    outer = ctx.work
+    ctx.work = os.path.join(vlib.WORK, "%s.alph.%d" % (ctx.pid, os.getpid()))
+    shutil.rmtree(ctx.work, ignore_errors=True)
+    os.makedirs(ctx.work, exist_ok=True)
+    n_broken, n_spec = len(ctx.broken), len(ctx.spec_violations)
+    try:
+        return _run_paths_for_c04(ctx)
+    finally:
+        if len(ctx.broken) == n_broken and len(ctx.spec_violations) == n_spec and not os.environ.get("VERIF_KEEP"):
+            shutil.rmtree(ctx.work, ignore_errors=True)
+        ctx.work = outer
+
+
+def _run_paths_for_c04(ctx):
+    rc, out = ctx.lake_build(["drv_alphwatch"])
+    if rc != 0:
+        ctx.broken.append(("tie", "driver-build", "lake build drv_alphwatch failed: %s" % out[-400:]))
+        return None
+    ov = ctx.overlay(OVERLAY, p2p_stub=True)
+    if ov is None:
+        return None
+    src = os.path.join(ctx.work, "alphwatch.cases")
+    if os.path.exists(src):
+        os.remove(src)
+    rc, out = ctx.go_test("node", "./pkg/alephium", "^TestVerifAlphWatch$", ov, env={"VERIF_PART": "c04"})
+    last = ""
+    if os.path.exists(src):
+        with open(src) as f:
+            for ln in f:
+                last = ln
+    if rc != 0 or last.strip() != "end end":
+        ctx.broken.append(("tie", "go-harness:alphwatch(c04)", out[-1200:]))
+        return None
+    ids = set()
+    with open(src) as f:
+        for ln in f:
+            parts = ln.split(" ", 2)
+            if len(parts) >= 2 and parts[0] != "end":
+                ids.add(parts[1])
+    keep = {k: ctx.cov.get(k) for k in ("traces_validated_against_impl", "driver_stats")}
+    n_ok, stats = judge(ctx, "alphwatch", src)
+    ctx.cov["evaluations"] += len(ids)
+    ctx.cov["distinct_nontrivial"] += n_ok
+    ctx.cov["alephium_paths"] = {"cases": len(ids), "ok": n_ok, "driver_stats": stats}
+    if keep["driver_stats"] is not None:
+        ctx.cov["driver_stats"] = keep["driver_stats"]
+    ctx.cov["trusted_base"] += ["harness/alephium/*_verif_test.go (fake Alephium node, both delivery paths of the real watcher, shipped configurations "
+                                "read by common.ReadConfigsByNetwork) + Whv/Driver/AlphWatch.lean for the Alephium part"]
+    return len(ids)
